@@ -13,7 +13,8 @@ PROPERTY = "C03"
 LEVEL = "fault_enumeration"
 RULE = ("fault enumeration over authentic reference-built reply packets: every single-bit flip at every bit position and "
         "every truncation length through LAN.send on the simulated wire (followed by an honest exchange), every single-byte "
-        "substitution (all 255 values) and every position pair x {01,80,FF}^2 at the _Packet.decode seam. "
+        "substitution (all 255 values) and every position pair x {01,80,FF}^2 at the _Packet.decode seam; the same packets followed by "
+        "further bytes in the segment; every bit flip of the inner packet inside an authentic V3 envelope. "
         "A case is (frame length, fault); all are non-trivial (each changes the packet)")
 ASSUMPTIONS = ["authentic packets are built by the reference codec", "truncation to zero bytes is not a TCP delivery and is excluded"]
 IP, PORT = "10.0.0.9", 6444
@@ -44,6 +45,10 @@ def shards(tier):
         out.append(("subst", n, 0))
     for i in range(8):
         out.append(("pairs", 0, i))
+    for n in lengths(tier):
+        out.append(("tail", n, 0))
+    for n in (lengths(tier) if tier == "thorough" else [15, 33]):
+        out.append(("v3bits", n, 0))
     return out
 
 
@@ -65,6 +70,45 @@ def wire(corrupt: bytes, good_frame: bytes, authentic_first: bytes = None):
                 await lan.send(CMD)
             except BaseException:  # noqa: BLE001
                 pass
+        try:
+            r1 = ("ok", await lan.send(CMD))
+        except BaseException as e:  # noqa: BLE001
+            r1 = (type(e).__name__, str(e)[:60])
+        try:
+            r2 = ("ok", await lan.send(CMD))
+        except BaseException as e:  # noqa: BLE001
+            r2 = (type(e).__name__, str(e)[:60])
+        return r1, r2
+
+    try:
+        out = w.run(drive())
+        return out[1] if out[0] == "ok" else ((exc_class(out), ""), ("n/a", ""))
+    finally:
+        w.close()
+
+
+def wire_v3(inner_corrupt: bytes, good_frame: bytes):
+    """Authenticated V3 session; the reply's inner V2 packet is damaged before the device encrypts and tags it."""
+    from ..simdev import SimDevice
+    from ..harness import filler
+    w = World()
+    token, key = filler("c03/tok", 64), filler("c03/key", 32)
+    n = {"i": 0}
+
+    def script(req):
+        if req.kind == "handshake":
+            for p in req.responses:
+                req.send(p)
+            return
+        n["i"] += 1
+        req.send(req.dev.wrap_v3(req.conn, inner_corrupt if n["i"] == 1 else rc.v2_build(good_frame, 0x1122334455)))
+
+    dev = SimDevice(version=3, token=token, key=key, device_id=0x1122334455, script=script)
+    w.net.listen(IP, PORT, dev)
+    lan = LAN(IP, PORT, 0x1122334455)
+
+    async def drive():
+        await lan.authenticate(token, key)
         try:
             r1 = ("ok", await lan.send(CMD))
         except BaseException as e:  # noqa: BLE001
@@ -162,6 +206,39 @@ def run_shard(shard, tier) -> Stats:
                         st.violation(f"substitution{' after the authentic packet' if primed else ''} field={field(i, len(pkt))} -> {d[0]}",
                                      {"kind": kind, "len": n, "pos": i, "xor": mask, "primed": primed is not None}, "ProtocolError", d)
                     st.ev((kind, n, i, mask, primed is not None), d[0], True)
+    elif kind == "tail":
+        # bytes following an authentic packet (padding, garbage, a second packet): never a frame other than the one sent
+        from ..harness import filler
+        other = rc.v2_build(al.payload("c03/other", 20, 3), 0x99)
+        # the payload key is fixed and public, so a peer can append blocks that decrypt to valid PKCS#7 padding
+        padblk = rc.ecb_encrypt(rc.ENC_KEY, b"\x10" * 16)
+        pad1 = rc.ecb_encrypt(rc.ENC_KEY, filler("c03/p1", 15) + b"\x01")
+        tails = [b"\x00", filler("c03/t15", 15), filler("c03/t16", 16), filler("c03/t32", 32), filler("c03/t48", 48), other, pkt,
+                 padblk, padblk + filler("c03/t16b", 16), pad1 + filler("c03/t16c", 16), padblk + padblk, filler("c03/t16d", 16) + padblk + bytes(16)]
+        for ti, tail in enumerate(tails):
+            for via in ("decode", "wire"):
+                case = {"kind": kind, "len": n, "tail": ti, "via": via}
+                if via == "decode":
+                    d = direct(pkt + tail)
+                else:
+                    d = wire(pkt + tail, frame)[0]
+                    d = (d[0], d[1][0] if d[0] == "ok" and d[1] else None)
+                if d[0] == "ok" and d[1] != frame:
+                    st.violation(f"trailing bytes: a frame other than the authentic one was returned ({via})", case, frame, d[1])
+                elif d[0] not in ("ok", "ProtocolError"):
+                    st.violation(f"trailing bytes -> {d[0]} ({via})", case, "the frame or ProtocolError", d[0])
+                st.ev((kind, n, ti, via), "tail:" + d[0], True)
+    elif kind == "v3bits":
+        for bit in range(len(pkt) * 8):
+            m = bytearray(pkt)
+            m[bit // 8] ^= 1 << (bit % 8)
+            case = {"kind": kind, "len": n, "bit": bit}
+            r1, r2 = wire_v3(bytes(m), frame)
+            if r1[0] != "ProtocolError":
+                st.violation(f"bitflip inside an authentic V3 envelope field={field(bit // 8, len(pkt))} -> {r1[0]}", case, "ProtocolError", r1)
+            if r2 != ("ok", [frame]):
+                st.violation(f"exchange after rejected packet (V3) -> {r2[0]}", case, ("ok", [frame]), r2)
+            st.ev((kind, n, bit), r1[0], True)
     elif kind == "pairs":
         masks = [0x01, 0x80, 0xFF]
         L = len(pkt)
@@ -185,6 +262,11 @@ def replay(case):
     frame, pkt = authentic(case["len"])
     m = bytearray(pkt)
     primed = pkt if case.get("primed") else None
+    if case["kind"] == "tail":
+        return {"note": "see run_shard('tail')", "violations": sorted(run_shard(("tail", case["len"], 0), "quick").viol_counts)}
+    if case["kind"] == "v3bits":
+        m[case["bit"] // 8] ^= 1 << (case["bit"] % 8)
+        return {"wire_v3": wire_v3(bytes(m), frame)}
     if case["kind"] == "bits":
         m[case["bit"] // 8] ^= 1 << (case["bit"] % 8)
     elif case["kind"] == "trunc":
